@@ -185,6 +185,23 @@ def faithful(result, parsed, dtype, fname_is_path, fname):
         err = float(np.max(np.abs(got - want)))
         if not err <= tol:
             return "coordinate %s is not the even subdivision of the header range [%r, %r]: off by %.3g (tol %.3g)" % (name, lo, hi, err, tol)
+        # "spanning the header ranges": the end nodes ARE the header values (copied, not accumulated) and no node leaves the range
+        if float(got[0]) != float(lo):
+            return "coordinate %s starts at %r, the header says %r (not bit-identical)" % (name, float(got[0]), float(lo))
+        if n > 1 and float(got[-1]) != float(hi):
+            return "coordinate %s ends at %r, the header says %r (off by %.3g: the last node must be the header value itself)" % (
+                name, float(got[-1]), float(hi), float(got[-1]) - float(hi))
+        if n > 1 and (got.min() < min(lo, hi) or got.max() > max(lo, hi)):
+            return "coordinate %s leaves the header range [%r, %r]: min %r max %r" % (name, lo, hi, float(got.min()), float(got.max()))
+    if parsed.shape[0] > 1 and parsed.shape[1] > 1 and south != north and west != east:
+        # label-based selection of the header corners must work
+        for lab_n, lab_e in ((north, east), (south, west)):
+            try:
+                picked = result.sel({"northing": lab_n, "easting": lab_e})
+            except Exception as exc:  # noqa: BLE001
+                return "grid.sel(northing=%r, easting=%r) (a header corner) fails: %s: %s" % (lab_n, lab_e, type(exc).__name__, str(exc)[:120])
+            if np.ndim(picked.values) != 0:
+                return "grid.sel of a header corner does not select one node"
     if result.attrs.get("gridID") != parsed.grid_id:
         return "gridID attribute %r, the file says %r" % (result.attrs.get("gridID"), parsed.grid_id)
     if fname_is_path and result.attrs.get("file") != fname:
@@ -276,6 +293,17 @@ def random_shape(rng, max_rows=40, max_cols=60, square=None):
     elif rows == cols:
         cols = cols + 1
     return rows, cols
+
+
+def end_node_is_fragile(lo, hi, n):
+    """Does accumulating n-1 steps from lo miss hi in float64 (so only a reader that pins the stop ends exactly on the header value)?"""
+    if n < 2 or lo == hi:
+        return False
+    step = (hi - lo) / (n - 1)
+    return (lo + step * (n - 1) != hi) or (lo + (n - 1) * ((hi - lo) / (n - 1)) != hi) or float(np.arange(n)[-1] * step + lo) != hi
+
+
+KNOWN_FRAGILE = [("0", "1000", 16), ("0", "1", 50), ("371.084", "1059.844", 42)]
 
 
 def random_range(rng):
@@ -392,13 +420,24 @@ def random_spec(rng, dtype="float64", shape=None, blanks=None, small=False, plai
             ztoks.append(repr(float(typed[i, j])))
     sp.z = ztoks
     sp.counts = ["%d" % shape[0], "%d" % shape[1]]
-    south, north = random_range(rng)
-    west, east = random_range(rng)
     coord_style = str(rng.choice(["g17", "repr", "g", "f", "e", "int"]))
-    if coord_style == "int":
-        south, north, west, east = float(int(south)), float(int(south) + 1 + int(abs(north - south))), float(int(west)), float(int(west) + 2 + int(abs(east - west)))
-    sp.sn = [fmt_number(rng, south, coord_style), fmt_number(rng, north, coord_style)]
-    sp.we = [fmt_number(rng, west, coord_style), fmt_number(rng, east, coord_style)]
+
+    def tokens(n_nodes, want_tricky):
+        """Two range tokens; when asked, search for a range whose accumulated end start + step*(n-1) misses the stop in floating point."""
+        best = None
+        for _ in range(120 if want_tricky else 1):
+            lo, hi = random_range(rng)
+            if coord_style == "int":
+                lo, hi = float(int(lo)), float(int(lo) + 1 + int(abs(hi - lo)))
+            toks = [fmt_number(rng, lo, coord_style), fmt_number(rng, hi, coord_style)]
+            best = best or toks
+            if not want_tricky or end_node_is_fragile(float(toks[0]), float(toks[1]), n_nodes):
+                return toks
+        return best
+
+    tricky = rng.random() < 0.7
+    sp.sn = tokens(shape[0], tricky)
+    sp.we = tokens(shape[1], tricky)
     if float(sp.sn[0]) == float(sp.sn[1]):
         sp.sn[1] = repr(float(sp.sn[0]) + 1.0)
     if float(sp.we[0]) == float(sp.we[1]):
